@@ -128,39 +128,39 @@ void DNS::type(QRType new_qr) {
     header_.qr = new_qr;
 }
 
-void DNS::opcode(uint8_t new_opcode) {
+void DNS::opcode(small_uint<4> new_opcode) {
     header_.opcode = new_opcode;
 }
 
-void DNS::authoritative_answer(uint8_t new_aa) {
+void DNS::authoritative_answer(small_uint<1> new_aa) {
     header_.aa = new_aa;
 }
 
-void DNS::truncated(uint8_t new_tc) {
+void DNS::truncated(small_uint<1> new_tc) {
     header_.tc = new_tc;
 }
 
-void DNS::recursion_desired(uint8_t new_rd) {
+void DNS::recursion_desired(small_uint<1> new_rd) {
     header_.rd = new_rd;
 }
 
-void DNS::recursion_available(uint8_t new_ra) {
+void DNS::recursion_available(small_uint<1> new_ra) {
     header_.ra = new_ra;
 }
 
-void DNS::z(uint8_t new_z) {
+void DNS::z(small_uint<1> new_z) {
     header_.z = new_z;
 }
 
-void DNS::authenticated_data(uint8_t new_ad) {
+void DNS::authenticated_data(small_uint<1> new_ad) {
     header_.ad = new_ad;
 }
 
-void DNS::checking_disabled(uint8_t new_cd) {
+void DNS::checking_disabled(small_uint<1> new_cd) {
     header_.cd = new_cd;
 }
 
-void DNS::rcode(uint8_t new_rcode) {
+void DNS::rcode(small_uint<4> new_rcode) {
     header_.rcode = new_rcode;
 }
 
